@@ -72,16 +72,26 @@ func (w *world) invoke(c call) {
 	t := w.cur
 	w.log = append(w.log, fmt.Sprintf("oStart %d (%s)", t.id, c.coq()))
 	ok := true
-	switch c.kind {
-	case "push":
-		m := &auparse.AuditMessage{RecordType: auparse.AuditMessageType(c.typ), Sequence: c.seq}
-		w.ids[m] = c
-		w.ra.PushMessage(m)
-	case "maintain":
-		ok = w.ra.Maintain() == nil
-	case "close":
-		ok = w.ra.Close() == nil
-	}
+	func() {
+		// a panic inside the call is an observation (oPanic), not the end of the harness
+		defer func() {
+			if p := recover(); p != nil {
+				w.log = append(w.log, fmt.Sprintf("oPanic %d", t.id))
+				w.text = append(w.text, fmt.Sprintf("t%d:%s PANIC %v", t.id, c.kind, p))
+				w.cur = t
+			}
+		}()
+		switch c.kind {
+		case "push":
+			m := &auparse.AuditMessage{RecordType: auparse.AuditMessageType(c.typ), Sequence: c.seq}
+			w.ids[m] = c
+			w.ra.PushMessage(m)
+		case "maintain":
+			ok = w.ra.Maintain() == nil
+		case "close":
+			ok = w.ra.Close() == nil
+		}
+	}()
 	w.park("R")
 	w.log = append(w.log, fmt.Sprintf("oRet %d (%s) %v", t.id, c.coq(), ok))
 	w.text = append(w.text, fmt.Sprintf("t%d:%s->%v", t.id, c.kind, ok))
@@ -350,16 +360,23 @@ func stressCase(seed uint64, idx int) (string, map[string]interface{}, string, b
 			for _, c := range progs[t] {
 				w.add(fmt.Sprintf("oStart %d (%s)", t, c.coq()))
 				ok := true
-				switch c.kind {
-				case "push":
-					m := &auparse.AuditMessage{RecordType: auparse.AuditMessageType(c.typ), Sequence: c.seq}
-					w.ids.Store(m, c)
-					ra.PushMessage(m)
-				case "maintain":
-					ok = ra.Maintain() == nil
-				case "close":
-					ok = ra.Close() == nil
-				}
+				func() {
+					defer func() {
+						if p := recover(); p != nil {
+							w.add(fmt.Sprintf("oPanic %d", t))
+						}
+					}()
+					switch c.kind {
+					case "push":
+						m := &auparse.AuditMessage{RecordType: auparse.AuditMessageType(c.typ), Sequence: c.seq}
+						w.ids.Store(m, c)
+						ra.PushMessage(m)
+					case "maintain":
+						ok = ra.Maintain() == nil
+					case "close":
+						ok = ra.Close() == nil
+					}
+				}()
 				w.add(fmt.Sprintf("oRet %d (%s) %v", t, c.coq(), ok))
 			}
 		}(t)
@@ -408,6 +425,11 @@ func stormCase(seed uint64, idx int) (string, map[string]interface{}, string, bo
 			atomic.AddInt32(&ready, 1)
 			for atomic.LoadInt32(&goFlag) == 0 {
 			}
+			defer func() {
+				if p := recover(); p != nil {
+					w.add(fmt.Sprintf("oPanic %d", t))
+				}
+			}()
 			results[t] = ra.Close() == nil
 		}(t)
 	}
